@@ -2,6 +2,7 @@ package props
 
 import (
 	"fmt"
+	"math"
 	"math/big"
 	"time"
 
@@ -25,7 +26,7 @@ func init() {
 			"oracle after every transaction and every BeginBlock, for every account with a plan: SpaceUsed (StoragePaymentInfo query) and GetClientFreeSpace agree with the sum of size x replication over that owner's live plan-paid files from AllFilesByOwner, 0 <= used <= available; a plan-paid post without a live plan or beyond the remaining space fails; failed posts leave the plan byte-identical; " +
 			"non-trivial signature = the set of file-lifecycle paths exercised in the history (post, same-key re-post, owner delete, foreign delete attempt, chain drop, boundary post, rejected post, upgrade, re-buy) together with the oracle staying evaluable",
 		Assumptions: []string{
-			"footprint of a file = FileSize x MaxProofs as declared when it was posted; 'posted against the plan' = Expires == 0",
+			"footprint of a file = FileSize x MaxProofs as declared when it was posted; 'posted against the plan' = not a one-time payment, i.e. Expires <= 0",
 		},
 		MinNonTriv: 25,
 	})
@@ -54,7 +55,7 @@ func (m *c07mon) check(when string) {
 		sum := new(big.Int)
 		n := 0
 		for _, f := range fr.Files {
-			if f.Owner != p.Address || f.Expires != 0 {
+			if f.Owner != p.Address || f.Expires > 0 { // Expires > 0 = one-time payment; everything else is charged to the plan
 				continue
 			}
 			n++
@@ -150,6 +151,16 @@ func runC07(rc *RunCtx) {
 		switch k := rc.Intn(100); {
 		case k < 14: // buy / upgrade / re-buy
 			bytes := int64(1+rc.Intn(20)) * GB
+			if rc.Chance(0.4) {
+				bytes += int64(rc.Intn(int(GB))) // not a whole number of GB
+			}
+			if pi0, had0 := plan(o); had0 && pi0.SpaceUsed > 0 && (rc.Chance(0.3) || (pi0.End.Before(c.Time) && rc.Chance(0.7))) {
+				// re-buy just above the current usage (boundary of the downsizing guard)
+				bytes = pi0.SpaceUsed + int64(rc.Intn(3))
+				if bytes < GB {
+					bytes = GB + int64(rc.Intn(1000))
+				}
+			}
 			days := int64(30 + rc.Intn(60))
 			pi, had := plan(o)
 			r := s.BuyPlan(o, o, bytes, days, "")
@@ -193,6 +204,15 @@ func runC07(rc *RunCtx) {
 				maxp = []int64{0, -1}[rc.Intn(2)]
 				size = 1000
 				kind = "nonpositive-replication"
+			case 5:
+				maxp = int64(4 + rc.Intn(30))
+				size = int64(1 + rc.Intn(5_000_000))
+				kind = "high-replication"
+			case 6:
+				// a footprint that fits int64 on its own but overflows once added to existing usage
+				maxp = 1
+				size = math.MaxInt64 - int64(rc.Intn(1000))
+				kind = "near-max-footprint"
 			}
 			if size == 0 && kind == "plain" {
 				size = int64(1 + rc.Intn(int(GB)))
@@ -205,6 +225,9 @@ func runC07(rc *RunCtx) {
 			expires := int64(0)
 			if payOnce {
 				expires = c.Height + 20000 + int64(rc.Intn(100000))
+			} else if rc.Chance(0.08) {
+				expires = -int64(1 + rc.Intn(1000)) // not a one-time payment (that needs Expires > 0): charged to the plan
+				kind += "+negative-expires"
 			}
 			before := planBytes(o)
 			usedBefore := pi.SpaceUsed
@@ -281,7 +304,7 @@ func runC07(rc *RunCtx) {
 				}
 			}
 		default:
-			dt := []time.Duration{6 * time.Second, time.Hour, 24 * time.Hour, 40 * 24 * time.Hour}[rc.Intn(4)]
+			dt := []time.Duration{6 * time.Second, time.Hour, 24 * time.Hour, 40 * 24 * time.Hour, 100 * 24 * time.Hour}[rc.Intn(5)]
 			if !step(dt) {
 				return
 			}
